@@ -38,6 +38,9 @@ const csearch_t::point_t& csearch_t::search(bundle_t& bundle, const scalar_t miu
     auto tL = 0.0;
     auto tR = std::numeric_limits<scalar_t>::infinity();
 
+    // NB: the status of the previous search must not be reported if the budget of function evaluations is exhausted!
+    m_point.m_status = csearch_status::max_iters;
+
     const auto new_trial = [&]()
     {
         if (std::isfinite(tR))
